@@ -29,7 +29,9 @@ B = [
     ("rename_conn_and_commit", "SED"),
     ("insert_many_inserts_first", [
         (SQ, "        # First, upsert events with id's set\n        events_upsert = [e for e in events if e.id is not None]\n        for e in events_upsert:\n            self.replace(bucket_id, e.id, e)\n\n", ""),
-        (SQ, "        self.conn.executemany(query, event_rows)\n        self.conditional_commit(len(event_rows))", "        self.conn.executemany(query, event_rows)\n        self.conditional_commit(len(event_rows))\n\n        # Then, upsert events with id's set\n        events_upsert = [e for e in events if e.id is not None]\n        for e in events_upsert:\n            self.replace(bucket_id, e.id, e)"),
+        # (the commit decision must not be taken before the call's first own write: an all-upsert bulk would
+        #  otherwise flush older writes first and leave its own writes buffered right after a flush -- C18 reports that)
+        (SQ, "        self.conn.executemany(query, event_rows)\n        self.conditional_commit(len(event_rows))", "        if event_rows:\n            self.conn.executemany(query, event_rows)\n            self.conditional_commit(len(event_rows))\n\n        # Then, upsert events with id's set\n        events_upsert = [e for e in events if e.id is not None]\n        for e in events_upsert:\n            self.replace(bucket_id, e.id, e)"),
     ]),
     # not benign for C14: after a migration the last bucket's events then stay buffered across "served reads, exited
     # without shutdown" -- C14 is expected to report it, every other check must stay silent
